@@ -207,7 +207,7 @@ Proof.
   assert (exists off len accx sx, off < two64 /\ len < two64 /\
             crc_field f ct accx sx (fun crc acc s => (Ok (mkprimary ver flags crc dst src rpt (fst ts) (snd ts) life off len), acc, s)) = (Ok p, acc', s2))
     as (off & len & accx & sx & Hoff & Hlen & Hc).
-  { destruct (1 <? match size_hint a8 with Some n => n | None => 0 end).
+  { match type of H with (if ?c then _ else _) = _ => destruct c end.
     - apply field_inv in H as (off & a9 & ? & ? & Hoff & H). apply uint_inv in Hoff.
       apply field_inv in H as (len & a10 & ? & ? & Hlen & H). apply uint_inv in Hlen. eauto 10.
     - exists 0, 0, a8, sl. unfold two64. repeat split; try lia. assumption. }
